@@ -8,13 +8,15 @@ integration primitive (np.trapezoid / np.trapz) -- independent of local names an
 direction of increasing x and the specification's cuts L = #{x < lower}, R = #{x <= upper}, in the unclamped case the nodes are
 lower, X[L..R), upper (soundness and completeness of the window), the values are Y[L], Y[L..R), Y[R-1], the nodes ascend; the
 result is |trapz| >= 0.
-"At most upper-lower" (unclamped case): lemma L9 by induction over the node index -- with np.trapezoid's definitional contract
+"At most upper-lower": for clamped windows (lower above / upper below every curve point) the body yields three nodes with one
+constant value c in [0,1], so the rule gives c*(upper-lower) (obligations on the executed body + the unfolded definition); for
+unclamped windows lemma L9 by induction over the node index -- with np.trapezoid's definitional contract
 (ghost partial sums S(0) = 0, S(k+1) = S(k) + (x[k+1]-x[k])(y[k]+y[k+1])/2, result S(n-1); assumed) the invariant
 0 <= S(k) <= x[k]-x[0] has base and step as obligations of every run, resting on two node facts proved from the executed body
 (every node value lies in [0,1], consecutive nodes ascend); at the last node, with the proved end nodes lower / upper, the result
 is <= upper-lower.
 Bounded (exhaustive weak orderings): equality with the Mann-Whitney statistic (ties 1/2, easy samples beyond), exact step area,
-additivity over adjacent intervals, <= upper-lower in the clamped cases, the three complement identities.
+additivity over adjacent intervals, the three complement identities.
 """
 import itertools
 from fractions import Fraction
@@ -189,6 +191,14 @@ def window_obligations(ex, live, tag, lower, upper, state, x_axis, y_axis):
         # conclusion of the induction at the last node + the proved end-node fact => the clause of the statement
         last = ni - 1
         res = toR(live[pi].value)
+        # clamped windows (lower above, or upper below, every curve point): three nodes with one constant value c, so the rule gives
+        # c * (upper - lower) although the middle node lies outside [lower, upper]
+        y0, y1, y2 = toR(yi.elem(0)), toR(yi.elem(1)), toR(yi.elem(2))
+        x1, x2 = toR(xi.elem(1)), toR(xi.elem(2))
+        ob("L9/clamped-window-has-three-nodes-with-one-value-in-[0,1]", Implies(Not(unclamped), And(ni == 3, y0 == y1, y1 == y2, 0 <= y0, y0 <= 1, x0 == lower, x2 == upper)))
+        lob("clamped: result-is-at-most-upper-minus-lower", Implies(Not(unclamped), And(0 <= res, res <= upper - lower)),
+            list(live[pi].path.pc) + [Implies(Not(unclamped), And(ni == 3, y0 == y1, y1 == y2, 0 <= y0, y0 <= 1, x0 == lower, x2 == upper)),
+                                      S(0) == 0, S(1) == S(0) + (x1 - x0) * (y0 + y1) / 2, S(2) == S(1) + (x2 - x1) * (y1 + y2) / 2])
         lob("result-is-at-most-upper-minus-lower", Implies(unclamped, And(0 <= res, res <= upper - lower)),
             list(live[pi].path.pc) + [Implies(unclamped, And(0 <= S(last), S(last) <= toR(xi.elem(last)) - x0)), Implies(unclamped, And(ni >= 2, x0 == lower, toR(xi.elem(last)) == upper))])
     return obs
